@@ -113,6 +113,19 @@ def gen_history(rng, n, kind='random'):
             ev('P', smi, 'h')
         dec('P', pair[0])
         return ops, objs
+    if kind == 'nodata':
+        # estimates that FAIL because the library has no data for some group of the molecule: looking is not changing - the library, and
+        # anything merged from it afterwards, is as in a fresh process
+        load('N', 'BensonGA')
+        load('M', rng.choice([l for l in LIBS if l != 'BensonGA']))
+        for smi in rng.sample(['C=C=C', 'O=C=O', 'C#CC#C', 'C=CO', 'C=C=CC', 'OC=C=C'], 3):
+            dec('N', smi)
+            ops.append({'op': 'estimate', 'obj': 'N', 'smiles': smi, 'eid': len(ops)})
+            ev('N', smi, 'h')
+        ops.append({'op': 'fingerprint', 'obj': 'N'})
+        ops.append({'op': 'merge', 'obj': 'M', 'src': 'N'})
+        ops.append({'op': 'fingerprint', 'obj': 'M'})
+        return ops, objs
     if kind == 'uq':
         # several estimates with different group sets on ONE library object, then standard errors
         lib = rng.choice(UQ_LIBS)
@@ -237,6 +250,7 @@ def run(ctx):
     hs += [gen_history(rng, 0, 'spellings') for _ in range(ctx.n(3, 20))]
     hs += [gen_history(rng, 0, 'reload') for _ in range(ctx.n(2, 20))]
     hs += [gen_history(rng, 0, 'molobj') for _ in range(ctx.n(3, 30))]
+    hs += [gen_history(rng, 0, 'nodata') for _ in range(ctx.n(2, 12))]
     with ThreadPoolExecutor(vlib.NCPU) as ex:
         runs = list(ex.map(lambda h: vlib.run_impl('history', {'cases': [{'ops': h[0]}]}, timeout=900), hs))
     # the single-operation references, each in a fresh process
